@@ -1404,10 +1404,17 @@ class Config:  # pylint: disable=too-many-instance-attributes
             # All included config files must have the same file format (you can't include XML from
             # a JSON file, for example).
             formatter = format_factory()
-            tree = field.include(self, formatter, filename, tree)
+            try:
+                tree = field.include(self, formatter, filename, tree)
+            except ValidationError:
+                raise
+            except Exception as err:
+                raise ValidationError(
+                    self, field, err, ref_path=field._ref_path  # type: ignore
+                ) from err
 
         for key, sub_schema in sub_schemas:
-            if tree.get(key):
+            if isinstance(tree.get(key), dict):
                 tree[key] = self._process_includes(
                     sub_schema, tree[key], format_factory
                 )
